@@ -15,6 +15,7 @@ import (
 
 	"berty.tech/go-ipfs-log/entry"
 	"berty.tech/go-ipfs-log/errmsg"
+	"berty.tech/go-ipfs-log/verifhook"
 	// "berty.tech/go-ipfs-log/io"
 )
 
@@ -29,10 +30,12 @@ type FetchOptions struct {
 }
 
 func toMultihash(ctx context.Context, services coreiface.CoreAPI, log *IPFSLog) (cid.Cid, error) {
+	verifhook.Yield("tomultihash.start", log)
 	if log.heads.Len() == 0 {
 		return cid.Undef, errmsg.ErrEmptyLogSerialization
 	}
 
+	verifhook.Yield("tomultihash.before-write", log)
 	return log.io.Write(ctx, services, log.ToJSONLog(), nil)
 }
 
